@@ -37,6 +37,8 @@ def valid_case(rng):
             case['types'][tn]['FuelModel'] = dict(gap_thickness=0.0, clad_material='ht9', r_frac=[0.0, 0.33333, 0.66667],
                                                   pu_frac=[0.2, 0.2, 0.2], zr_frac=[0.1, 0.1, 0.1], porosity=[0.25, 0.25, 0.25])
     gi.random_power(rng, case)
+    if rng.random() < 0.5:
+        gi.random_setup_options(rng, case)
     if rng.random() < 0.3:
         a = rng.choice(case['assignment'])
         a.pop('flowrate')
